@@ -57,13 +57,14 @@ CHECKS = {
     "C13": ("model_checking", "End-to-end runs of every country entry point (shipped languages, methods, schedules, date windows, 1-3 assets assembled from TLC-generated histories, permuted rows and "
             "tables, seven unit pairs) with the ComputedData of the same run captured before the generators; rp2_full_report.ods is read back cell by cell and TLC checks (Rp2Docs!FullAssetFails / "
             "FullSharedFails): every in/out/intra transaction of the window once, time-sorted, fields, running sums and sold percentage; every fraction once with amount, proceeds, cost, gain, "
-            "long/short, k/n labels, fraction percentages; yearly summaries, balances with per-holder totals, average price; Summary sheet; Legend methods and date filters.", "4.7, 6 C13"),
+            "long/short, k/n labels, fraction percentages; yearly summaries, balances with per-holder totals, average price; Summary sheet; Legend methods and date filters. Where the property "
+            "prescribes the value (yearly lines, k/n labels, balances) the clause derives it from the transactions and from all fractions of the run, not only from the filtered ComputedData.", "0.3, 0.4, 4.7, 6 C13"),
     "C14": ("model_checking", "Same pipeline for rp2_us and rp2_ie on type-complete inputs (all 14 types) with 1-3 assets sharing sheets: TLC checks (Rp2Docs!TaxReportFails) that the rows of "
             "tax_report_us/ie.ods are, per asset, exactly the computed fractions (bag equality of amount, proceeds, cost, gain, long/short and k/n labels), each on the sheet the property assigns to "
-            "its transaction type, with dates acquired and sold equal to the local dates, and that sheets without rows are absent.", "4.7, 6 C14"),
+            "its transaction type, with dates acquired and sold equal to the local dates, proceeds and cost basis following the transactions (pro-rating formulas of Rp2Ledger), and that sheets without rows are absent.", "0.3, 4.7, 6 C14"),
     "C15": ("model_checking", "Same pipeline for runs without from-date (multi-holder, multi-exchange inputs, every country): TLC checks (Rp2Docs!OpenPositionsFails) the holder rows and (exchange, holder) "
             "rows against the positive computed balances, unrealized cost against the cost of the unconsumed lot parts derived from the computed fractions, realized + unrealized = total acquired cost, "
-            "per-unit cost x total balance = unrealized cost, and weights as exact shares of the total (rational arithmetic on the lattice).", "4.7, 6 C15"),
+            "per-unit cost x total balance = unrealized cost, weights as exact shares of the total (rational arithmetic on the lattice), lots consumed = amounts disposed, balances = unsold lot parts.", "0.3, 4.7, 6 C15"),
     "C19": ("model_checking", "Every hyperlink of rp2_full_report.ods is resolved to what it leads to (the transaction found in the target row) and TLC checks (Rp2Docs!LinkAssetFails / LinkSummaryFails) "
             "that event and lot cells lead to the row of that very transaction of that asset, carry no link when the window hides it, and that every Summary line leads to the first gain/loss row "
             "of its year; inputs: 2-3 assets sharing row numbers, rows not time-sorted, windows hiding lots / events, mixed UTC offsets around new year. The row-map design of the generator is "
